@@ -194,6 +194,7 @@ func (ex *Exec) execInstr(b *ssa.BasicBlock, st *State, in ssa.Instruction) {
 		for _, r := range in.Results {
 			rs = append(rs, ex.val(st, r))
 		}
+		ex.nonNilCheckpoint(st, "return", in.Pos())
 		if ex.con != nil && ex.inlineDepth == 0 {
 			for i, cl := range ex.con.AtReturn {
 				env := ex.specEnv(st, ex.entry, false)
